@@ -207,3 +207,13 @@ CHECKS['C19'] = dict(
          'moment of run A\'s close), explored under the controlled scheduler.',
     note='Deviation-bounded (every non-default choice costs 1) for the two-run scenarios because preemption bounding with free forced '
          'switches explodes with 6+ threads; bounds in the evidence.')
+
+CHECKS['C11'] = dict(
+    engine='enum', level='model_checking', design_ref='DESIGN.md#c11',
+    technique='bounded-exhaustive derive/mutate/execute histories with a deep structural snapshot oracle + schedule exploration of two concurrent tests',
+    text='All (operation, source object) histories up to length 3 (4 in thorough) over 13 derive/nest operations (with_args, with_plugs, '
+         'PhaseOptions, measures, diagnose, plug, sequence, group variants, subtest, branch, copy), 8 in-place modifications of the derived '
+         'object and execute / execute-with-a-conditional-validator-switched-on, applied to a rich base phase and a plain one: after every '
+         'step every other object must be structurally unchanged; repeated executions give equal records.  Two Tests built from the same phase '
+         'objects run concurrently under the controlled scheduler and must each produce the record they produce alone.',
+    note='"Modify" never mutates a shared Measurement declaration object in place (attr_copy shares them by design); deviation-bounded schedules.')
